@@ -5,9 +5,9 @@
 (*                                                                         *)
 (* Model checking mode (INIT Init / NEXT Next / INVARIANT Emit):           *)
 (*   every state is one *history* (sequence of operations from the family's*)
-(*   alphabet, IOEnv.FAM) of length <= IOEnv.MAXLEN together with the set  *)
+(*   alphabet, job.fam) of length <= job.maxlen together with the set      *)
 (*   of configurations the list model allows after it.  A history ends at  *)
-(*   MAXLEN or at the first operation the model says must fail.  For every *)
+(*   maxlen or at the first operation the model says must fail.  For every *)
 (*   maximal history the invariant emits the program (declarations, then   *)
 (*   each operation followed by a print of all variables) and the expected *)
 (*   observation (printed text - one of several where `remove` leaves the  *)
@@ -18,9 +18,11 @@
 (***************************************************************************)
 EXTENDS AbraArray, SequencesExt, Json, IOUtils, TLCExt
 
-VARIABLES hist,   \* MC: indices into Alpha;  simulation: operation records
-          cs,     \* configurations allowed by the model after hist
-          stat    \* [err, why, inm, eouts]
+VARIABLES job,    \* what is explored: [fam, maxlen] (constant along a behaviour); the jobs of a run = Plans[IOEnv.PLAN]
+          hist,   \* MC: indices into Alpha;  simulation: operation records
+          mv      \* the model's verdict on hist: [cs, stat]
+cs   == mv.cs     \* configurations allowed by the model after hist
+stat == mv.stat   \* [err, why, inm, eouts]
 
 A == TVar("a")   B == TVar("b")   N == TVar("n")   M == TVar("m")
 N0 == TIdx("n", 0)   N1 == TIdx("n", 1)   M0 == TIdx("m", 0)
@@ -51,41 +53,68 @@ Nest  == << OAssign("n", ELit2(<< <<0>>, <<1, 0>> >>)), OAssign("n", ELit2(<< <<
             OPop(N), OPop(N1), OSwap(N, 0, 1), ORemove(N, 0), OClear(N0), OClear(M),
             OFind(N, ELit(<<0>>)), OContains(N, EVar("a")), OGet(N, 1), OGet(N0, 0), OIter(N), OLen(N), OIsEmpty(N0) >>
 
-Fam == IOEnv.FAM
-Alpha == CASE Fam = "flatR" -> FlatR [] Fam = "flatF" -> FlatF [] Fam = "nest" -> Nest [] OTHER -> <<>>
-Vars == CASE Fam \in {"flatR", "flatF"} -> <<"a", "b">> [] Fam = "nest" -> <<"a", "n", "m">> [] OTHER -> <<"a", "b", "n", "m">>
-MaxLen == CHOOSE k \in 0..80 : ToString(k) = IOEnv.MAXLEN
+\* medium alphabet: every operation kind, the interesting index / alias variants
+FlatM == << OAssign("a", ELit(<<0, 1>>)), OAssign("a", ELit(<<1, 0, 1>>)), OAssign("a", EFilled(1, 2)),
+            OAssign("b", EVar("a")), OAssign("b", EClone(A)), OAssign("a", EVar("b")),
+            OGet(A, -1), OGet(A, 0), OGet(A, 1), OGet(A, 2), OGet(B, 0),
+            OSet(A, 0, EInt(1)), OSet(A, 1, EInt(0)), OSet(A, 2, EInt(1)), OSet(B, 0, EInt(1)),
+            OPush(A, EInt(0)), OPush(A, EInt(1)), OPush(B, EInt(0)), OPop(A), OPop(B), OLen(A), OIsEmpty(A),
+            OSwap(A, 0, 1), OSwap(A, 0, 2), ORemove(A, 0), ORemove(A, 1), ORemove(A, 2), ORemove(B, 0),
+            OClear(A), OFind(A, EInt(0)), OContains(A, EInt(1)), OIter(A), OIter(B) >>
+
+Job(fam, maxlen) == [fam |-> fam, maxlen |-> maxlen]
+Plans == [quick       |-> {Job("flatR", 3), Job("flatF", 2), Job("nest", 2)},
+          thorough    |-> {Job("flatR", 4), Job("flatM", 3), Job("flatF", 2), Job("nest", 3)},
+          simquick    |-> {Job("sim", 30)},
+          simthorough |-> {Job("sim", 30), Job("sim", 60)}]
+
+Fam == job.fam
+Alpha == CASE Fam = "flatR" -> FlatR [] Fam = "flatM" -> FlatM [] Fam = "flatF" -> FlatF [] Fam = "nest" -> Nest [] OTHER -> <<>>
+Vars == CASE Fam \in {"flatR", "flatM", "flatF"} -> <<"a", "b">> [] Fam = "nest" -> <<"a", "n", "m">> [] OTHER -> <<"a", "b", "n", "m">>
+MaxLen == job.maxlen
 
 Stat0 == [err |-> "", why |-> "", inm |-> TRUE, eouts |-> {}]
-Init == hist = <<>> /\ cs = {InitCfg} /\ stat = Stat0
+Init == job \in Plans[IOEnv.PLAN] /\ hist = <<>> /\ mv = [cs |-> {InitCfg}, stat |-> Stat0]
 
-\* the model's verdict on extending the current history by operation o
-Advance(o) ==
-  LET r == StepAll(cs, o, Vars)
+\* the model's verdict on extending a history whose configurations are cs0 by operation o
+\* (an expression, so that TLC evaluates the LET definitions once)
+Verdict(cs0, o) ==
+  LET r == StepAll(cs0, o, Vars)
       agree == r.inm /\ Cardinality(r.errs) <= 1 /\ (r.errs = {} \/ r.cs = {})
-  IN /\ cs' = r.cs
-     /\ stat' = [err |-> IF agree /\ r.errs # {} THEN CHOOSE e \in r.errs : TRUE ELSE "",
-                 why |-> IF agree /\ r.errs # {} THEN CHOOSE w \in r.whys : TRUE ELSE "",
-                 inm |-> agree, eouts |-> r.errouts]
+      failed == agree /\ r.errs # {}
+  IN [cs |-> r.cs,
+      stat |-> [err |-> IF failed THEN CHOOSE e \in r.errs : TRUE ELSE "",
+                why |-> IF failed THEN CHOOSE w \in r.whys : TRUE ELSE "",
+                inm |-> agree, eouts |-> r.errouts]]
+Advance(o) == mv' = Verdict(cs, o)
 
 Live == Len(hist) < MaxLen /\ stat.err = "" /\ stat.inm
-Next == Live /\ LET al == Alpha IN \E k \in 1..Len(al) : hist' = Append(hist, k) /\ Advance(al[k])
+Next == Live /\ job' = job /\ LET al == Alpha IN \E k \in 1..Len(al) : hist' = Append(hist, k) /\ Advance(al[k])
 
 \* ---------------------------------------------------------------- the emitted case
 OneOf(S) == IF Cardinality(S) = 1 THEN CHOOSE x \in S : TRUE ELSE [oneof |-> SetToSeq(S)]
 Expect == IF stat.err = "" THEN [status |-> "done", out |-> OneOf({c.out : c \in cs})]
           ELSE [status |-> "error", errkind |-> stat.err, out |-> OneOf(stat.eouts)]
+\* every case names its class (`key`); the class of histories ending in a pop on an empty array additionally
+\* describes the deviation known at the pinned revision (host panic after the correct output so far), so that
+\* the known-findings filter hides exactly that deviation and nothing else
+\* class of an operation for the coverage statistics: name, form of the operand, inner-array target
+KindOf(o) == o.op \o (IF o.E.k # "none" THEN ":" \o o.E.k ELSE "") \o (IF o.T.k = "idx" THEN "@inner" ELSE "")
 CaseOf(id, ops) ==
-  [id |-> id, fam |-> Fam, files |-> ("main.abra" :> ProgText(ops, Vars)), inmodel |-> stat.inm,
-   ops |-> [i \in 1..Len(ops) |-> ROp(ops[i])], len |-> Len(ops),
+  [id |-> id, fam |-> Fam, maxlen |-> MaxLen, files |-> ("main.abra" :> ProgText(ops, Vars)), inmodel |-> stat.inm,
+   ops |-> [i \in 1..Len(ops) |-> ROp(ops[i])], kinds |-> [i \in 1..Len(ops) |-> KindOf(ops[i])], len |-> Len(ops),
    alts |-> IF stat.err = "" THEN Cardinality({c.out : c \in cs}) ELSE Cardinality(stat.eouts),
-   expect |-> Expect] @@
-  (IF stat.err # "" THEN [key |-> "C26|" \o stat.why, why |-> stat.why] ELSE <<>>)
+   expect |-> Expect,
+   key |-> IF stat.err # "" THEN "C26|" \o stat.why ELSE "C26|done|" \o ops[Len(ops)].op] @@
+  (IF stat.err # "" THEN [why |-> stat.why] ELSE <<>>) @@
+  (IF stat.err # "" /\ stat.why = "pop-empty"
+   THEN [defect |-> [key |-> "C26|pop-empty|host-panic", expect |-> [status |-> "panic", out |-> OneOf(stat.eouts)]]]
+   ELSE <<>>)
 
 RECURSIVE IdOf(_, _)
 IdOf(h, i) == IF i > Len(h) THEN "" ELSE "-" \o ToString(h[i]) \o IdOf(h, i + 1)
 Emit == (~Live /\ hist # <<>>) =>
-          LET al == Alpha IN PrintT(<<"CASE", ToJson(CaseOf(Fam \o IdOf(hist, 1), [i \in 1..Len(hist) |-> al[hist[i]]]))>>)
+          LET al == Alpha IN PrintT(<<"CASE", ToJson(CaseOf(Fam \o ToString(MaxLen) \o IdOf(hist, 1), [i \in 1..Len(hist) |-> al[hist[i]]]))>>)
 
 \* ---------------------------------------------------------------- simulation: long random histories
 Pick(S) == RandomElement(S)
@@ -132,8 +161,8 @@ SimOp ==
 
 \* (TLC re-evaluates action-level LET definitions on every use: the random operation is drawn exactly once,
 \*  into hist', and read back from there)
-NextSim == Live /\ hist' = Append(hist, SimOp) /\ Advance(hist'[Len(hist')])
+NextSim == Live /\ job' = job /\ hist' = Append(hist, SimOp) /\ Advance(hist'[Len(hist')])
 EmitSim == (~Live /\ hist # <<>>) =>
-   LET id == "s" \o ToString(TLCGet("stats").traces)
+   LET id == "s" \o ToString(MaxLen) \o "." \o ToString(TLCGet("stats").traces)
    IN JsonSerialize(IOEnv.OUTDIR \o "/" \o id \o ".json", CaseOf(id, hist))
 =============================================================================
